@@ -18,8 +18,8 @@ import (
 	"github.com/deepteams/webp/internal/zzverif/fw"
 	"github.com/deepteams/webp/internal/zzverif/imgs"
 	"github.com/deepteams/webp/internal/zzverif/riffwalk"
-	"github.com/deepteams/webp/internal/zzverif/vp8gen"
 	"github.com/deepteams/webp/internal/zzverif/vhook"
+	"github.com/deepteams/webp/internal/zzverif/vp8gen"
 	"github.com/deepteams/webp/internal/zzverif/vsync"
 )
 
